@@ -29,6 +29,7 @@ def tokOf (s : St) : Ev → Option (List String)
   | .allocFail _ => some ["N"]
   | .resizeOk _ => some ["R"]
   | .resizeFail _ => some ["RN"]
+  | .resizeKeep _ => some ["RN"]
   | .close v => match s.st v with
     | .live => some ["C"]
     | .null => some ["C0"]
